@@ -123,6 +123,11 @@ def run_case(i, seed, tier):
             h.extend(nops)
         ops = list(h.ops)
         h.sess.close()
+    if i % 4 == 2:
+        # a running clock while the image is built: the time stamps of one record differ from each
+        # other, so a parser that mixes them up does not reproduce the image
+        ops = [{'op': 'clock_tick', 'seconds': 1}] + list(ops) + [{'op': 'clock_tick', 'seconds': 0}]
+        counters['running_clock_cases'] = 1
     vio = c01.dedup(check(cfg, ops, seed * 1000003 + i, counters))
     feats = sum([bool(cfg.rr), bool(cfg.joliet), cfg.udf, cfg.xa, profile in ('boot', 'hybrid')])
     return {'verdict': 'violated' if vio else 'held',
